@@ -1149,9 +1149,11 @@ fn edge_stream(em: &mut Em, rng: &mut Rng) {
             edge_case(em, &s, kind, &[0.0f32], Q::Knn(1));
         }
     }
-    let rounds = if em.thorough() { 60 } else { 14 };
-    for _ in 0..rounds {
-        let which = rng.below(10);
+    // the ten kinds of scenario in turn (every kind is reached on every seed: the coverage floors on
+    // `edge:*` cannot fail by chance)
+    let rounds = if em.thorough() { 60 } else { 20 };
+    for round in 0..rounds {
+        let which = round % 10;
         let j = rng.below(1 << 20);
         match which {
             // L2: from the first exponent at which the square of the largest difference (7 x 2^e) overflows
